@@ -466,12 +466,10 @@ func runC02(cfg config) {
 							}
 						}
 						if !good {
-							// Base64Binary and Xhtml have no System value
-							if _, isB64 := n.msg.(*dtpb.Base64Binary); !isB64 {
-								if _, isX := n.msg.(*dtpb.Xhtml); !isX {
-									ok = false
-									valueBad = append(valueBad, fmt.Sprintf("%s: got %v (%v) json %v", vsrc, out, eerr, st.val))
-								}
+							// Xhtml has no System value (a base64Binary has: its base64 text, as in the JSON)
+							if _, isX := n.msg.(*dtpb.Xhtml); !isX {
+								ok = false
+								valueBad = append(valueBad, fmt.Sprintf("%s: got %v (%v) json %v", vsrc, out, eerr, st.val))
 							}
 						}
 					}
